@@ -25,6 +25,7 @@ structure Tun where
   lgMin : Nat := 3          -- LG_MIN_MAP_SIZE
   goldNum : Nat := 6180339887498949     -- GOLDEN_RATIO_RECIPROCAL (iterator stride, L2 only)
   goldDen : Nat := 10000000000000000
+  driftLimit : Nat := 1024  -- DRIFT_LIMIT (L2 only: insertion throws when the probe distance reaches it)
 
 abbrev Map (ι : Type) := List (ι × Nat)
 
